@@ -231,19 +231,31 @@ impl RaAdvService {
             }));
         }
 
-        if let Some(v) = &intf.rdnss.unwrap_or(
-            config
-                .dns_servers
-                .iter()
-                .filter_map(|ip| match ip {
-                    std::net::IpAddr::V6(ip6) if *ip6 == std::net::Ipv6Addr::UNSPECIFIED => {
-                        Some(self6)
-                    }
-                    std::net::IpAddr::V6(ip6) => Some(*ip6),
-                    _ => None,
-                })
-                .collect(),
-        ) {
+        if let Some(v) = &intf
+            .rdnss
+            .unwrap_or(
+                config
+                    .dns_servers
+                    .iter()
+                    .filter_map(|ip| match ip {
+                        std::net::IpAddr::V6(ip6) => Some(*ip6),
+                        _ => None,
+                    })
+                    .collect(),
+            )
+            .map(|v| {
+                /* $self6, wherever it was configured */
+                v.iter()
+                    .map(|ip6| {
+                        if *ip6 == std::net::Ipv6Addr::UNSPECIFIED {
+                            self6
+                        } else {
+                            *ip6
+                        }
+                    })
+                    .collect::<Vec<_>>()
+            })
+        {
             /* RFC8106 Section 5.1: the option carries one or more addresses. */
             if !v.is_empty() {
                 options.add_option(icmppkt::NDOptionValue::RecursiveDnsServers((
